@@ -137,7 +137,7 @@ pub fn apply(src: &str, rewrites: &[Rewrite]) -> (String, usize) {
                     }
                 }
             }
-            if p.category_is(TokenCategory::BinOp)
+            if (p.category_is(TokenCategory::BinOp) || matches!(p.kind, TokenKind::PrePlus | TokenKind::PreMinus | TokenKind::PreBitNot | TokenKind::Assign))
                 && matches!(t.kind, TokenKind::NatLit | TokenKind::IntLit | TokenKind::RatioLit | TokenKind::Symbol)
                 && single_line(t)
             {
@@ -145,6 +145,7 @@ pub fn apply(src: &str, rewrites: &[Rewrite]) -> (String, usize) {
                 let follows_ok = next
                     .map(|n| {
                         matches!(n.kind, TokenKind::Newline | TokenKind::RParen | TokenKind::Comma | TokenKind::EOF | TokenKind::RSqBr)
+                            || (n.kind == TokenKind::Dot && n.col_begin == t.col_end && t.kind == TokenKind::Symbol)
                             || (n.category_is(TokenCategory::BinOp) && n.col_begin > t.col_end)
                     })
                     .unwrap_or(true);
@@ -254,7 +255,7 @@ pub fn rewritten(case: &Case) -> String {
 
 fn parsing_corpus() -> &'static Vec<(String, String)> {
     static C: std::sync::OnceLock<Vec<(String, String)>> = std::sync::OnceLock::new();
-    C.get_or_init(|| corpus().iter().filter_map(|s| fingerprint(s).ok().map(|f| (s.clone(), f))).collect())
+    C.get_or_init(|| corpus().iter().cloned().chain(super::c11::sample_sources(150, 6)).filter_map(|s| fingerprint(&s).ok().map(|f| (s.clone(), f))).collect())
 }
 
 impl Property for C10 {
